@@ -82,7 +82,7 @@ CHECKS = {
             "Coq proof, unbounded in rows and columns, that the vMerge sweep reproduces the document grid under HTML table layout + exhaustive tilings correspondence",
             "Theorem for every well-formed tiling encoding of any size: html_layout (row_spans rows) = Some (doc_grid rows): no overlap, no gap, every position owned by the right cell; "
             "the reader model's own sweep over document elements is proved EQUAL to that abstract sweep (C09_reader_sweep_refines: same cells, same order, own children and colspan, the abstract rowspans; no extras, no messages), "
-            "so the grid theorem holds for what the reader returns (C09_reader_table_layout), and from the XML of a plain w:tbl element whatever its cells contain (C09_xml_table_layout: tiling read off w:gridSpan / w:vMerge, header flags kept); "
+            "so the grid theorem holds for what the reader returns (C09_reader_table_layout), and from the XML of a plain w:tbl element whatever its cells contain (C09_xml_table_layout: tiling read off w:gridSpan / w:vMerge, header flags kept) and on to the HTML (C09_xml_to_html_table: the table element that survives strip_empty and collapse has the document's rows, thead/th for exactly the leading header rows, colspan / rowspan iff not 1, and the grid read off its attributes lays out to the document grid); "
             "plus the tr/th/td/thead/tbody/colspan/rowspan structure equations of the converter. The sweep model is compared in Coq with body_xml's calculate_row_spans on all tilings up to 3x3 (4x4 thorough) and random ones up to 6x6.",
             BASE_NOTE + "Domain: merges do not cross the header boundary; rows and cells are direct children.",
             "DESIGN.md §5 C09"),
@@ -102,7 +102,8 @@ CHECKS = {
             "Theorems: a toggle is on iff present with w:val not false/0; underline/highlight rules; a run is its children wrapped in exactly the paths of the properties that are on "
             "(run style outermost ... highlight innermost), defaults strong/em/s, nothing for unmapped underline/caps/small caps/highlight. Oracle: inline ancestors of each run's text.",
             BASE_NOTE + "C11_formatting_is_local states 'formatting never extends over another run' as one theorem for visitor -> strip_empty -> collapse over any list of text runs "
-            "(style maps without :separator): every text leaf of the output sits under a chain compatible, level by level and of the same length, with the wrappers of its own run.",
+            "(style maps without :separator): every text leaf of the output sits under a chain compatible, level by level and of the same length, with the wrappers of its own run. READER HALF (C11_read_run): a w:r yields exactly one run whose ten flags are those a specification on its w:rPr prescribes; C11_xml_runs_local composes XML -> wrappers -> collapsed output; "
+            "C11_default_wrappers: strong / em / sup / sub / s and nothing for underline, caps, small caps, highlight when no mapping overrides them.",
             "DESIGN.md §5 C11, §15"),
     "C13": ("proof",
             "Coq proofs of name/DOM/reader invariances over tables regenerated from source + metamorphic end-to-end suite over all listed rewrites",
@@ -119,7 +120,7 @@ CHECKS = {
             "Theorems: unknown element => exactly one warning naming it, ignored element => none; converter warnings = warnings of the traversal in order; clean subtree => none; messages are NoDup and lose nothing; "
             "style-map warnings one per distinct unreadable line; READER HALF AS A WHOLE (C16_reader_warnings, C16_docx_warnings): for every part in the domain the reader's messages are exactly, once each and in first-occurrence order, the "
             "warnings a specification written on the XML alone lists (unknown elements, undefined styles, unsupported breaks / symbols / images, non-row table children), for the notes, comments and main parts together; a part where no site fires - "
-            "in particular a structurally tidy one - reads without a message (iff). The statement is evaluated in Coq on every generated package. Oracle: the message set equals the anomalies an independent walk of the package lists; clean packages yield [].",
+            "in particular a structurally tidy one - reads without a message (iff). END TO END (C16_end_to_end_messages, _once, C16_clean_document_no_messages): the messages convert_to_html returns are one de-duplication, first occurrence first, of the unreadable style-map lines, the reader's warnings and the converter's warnings along the traversal of body, referenced notes and comments; convert_to_markdown returns the same messages. The statement is evaluated in Coq on every generated package. Oracle: the message set equals the anomalies an independent walk of the package lists; clean packages yield [].",
             BASE_NOTE + "Domain of the reader theorem: wf_body and every w:fldChar a direct child of a run.", "DESIGN.md §5 C16, §15"),
     "C06": ("proof",
             "Coq print/parse round trip over an abstract syntax of the documented notation (independent printer, denotation) + in-kernel and README-level correspondence",
